@@ -80,8 +80,8 @@ def count(chk, recs, nontrivial):
 
 def c16(chk, tier):
     chk.extra["rule"] = ("one forked probe per (signal number, context): the kernel's default action (native) and "
-                         "emulate_default_handler from normal context, with the signal masked, and from inside the "
-                         "signal's own action; distinct = distinct (signal, context, wait status)")
+                         "emulate_default_handler from normal context, with the signal masked, with another signal "
+                         "blocked and pending, and from inside the signal's own action; distinct = distinct (signal, context, wait status)")
     args = ["--all"] if tier == "thorough" else []
     out = os.path.join(WORK, "probe_C16.ndjson")
     recs = run_probe("default", args, out)
@@ -98,11 +98,24 @@ def c16(chk, tier):
                 "ignore" if st == "exited:0" else "term")
     libkind = "@" + " @@ ".join('(%d :> "%s")' % (s, k) for s, k in sorted(kind.items()))
     chk.params["default_table"] = {str(k): v for k, v in sorted(kind.items())}
-    r = chk.model_check("Default.tla", dict(LibKind=libkind, Unblocks=True),
+    # what the procedure does to the signal mask before the re-raise, from the masked / handler /
+    # other_pending contexts of terminating signals
+    term = {s for s, k in kind.items() if k == "term"}
+    unblocks = "this"
+    for r0 in recs:
+        if r0["e"] == "emulate" and r0["sig"] in term:
+            if r0["ctx"] in ("masked", "handler") and r0["status"] == "signaled:6" and r0["sig"] != 6:
+                unblocks = "none"
+            elif r0["ctx"] == "other_pending" and r0["status"] == "signaled:%d" % r0["other"] \
+                    and unblocks != "none":
+                unblocks = "all"
+    chk.params["default_unblocks"] = unblocks
+    r = chk.model_check("Default.tla", dict(LibKind=libkind, Unblocks=unblocks),
                         invariants=["EmulationMatchesKernel"], deadlock=False, workers=4,
-                        what="emulation procedure x DETAILS table as observed, all numbers 0..66 x 3 contexts")
+                        what="emulation procedure x DETAILS table as observed, all numbers 0..66 x 4 contexts")
     if r.violation:
-        chk.model_violation(r, "signal_details.rs table as observed", {"LibKind": libkind})
+        chk.model_violation(r, "signal_details.rs table and mask handling as observed",
+                            {"LibKind": libkind, "Unblocks": unblocks})
 
 
 def c15(chk, tier):
@@ -196,7 +209,8 @@ def c12(chk, tier):
                          "scenarios with add_signal racing deliveries; distinct = distinct (history, observations)")
     hist = ["A12,R12", "A9,A12,R12,R10", "A-1,A12,R12", "A200,R10,A10,R10", "A65,A65,A12,R12",
             "A9,X", "A12,A12,R12", "H,A9,h,A12,R12,X", "A19,A4,A8,A11,R10,A14,R14,X",
-            "A128,A127,A0,R10", "A32,A33,A34,R34", "H,H,A12,h,X,R12"]
+            "A128,A127,A0,R10", "A32,A33,A34,R34", "H,H,A12,h,X,R12",
+            "N9,R10,R12", "N-1,N200,N65,R10", "N14,R10,N19,X,R12", "N11,A12,R12"]
     if tier == "thorough":
         nums = [-3, -1, 0, 1, 4, 8, 9, 11, 14, 19, 31, 32, 33, 34, 64, 65, 100, 127, 128, 129, 131,
                 2147483647, -2147483648]
